@@ -178,9 +178,11 @@ def check_stream_props(prop, tier, seed, log=print):
                         cls = 'C02'
                     elif b is not None and b[0] == 'final' and a is not None and a[0] == 'final':
                         cls = 'C03'
+                    cls = {cls}
                     if impl[2] in ('HANG', 'LOOP', 'NOTSTICKY'):
-                        cls = 'C03'
-                    if cls == prop:
+                        # a lexer that does not stop (or stops and goes on) is C03's; an error item missing where it stops is C02's too
+                        cls = {'C03'} | ({'C02'} if 'C02' in cls and impl[2] == 'NOTSTICKY' else set())
+                    if prop in cls:
                         oracle_fail += 1
                         oracle_fail_defs.add(idx)
                         run.violation('oracle', dict(rep, first_divergence=dict(index=j, observed=a, expected=b)),
